@@ -1224,6 +1224,9 @@ func runC13(c *core.Ctx) {
 		}
 	})
 	popFixed(c)
+	if f, ok := extra["C13"]; ok {
+		f(c)
+	}
 }
 
 // popFixed: a few hand-written sessions (documented behaviours worth pinning, incl. the non-claim about RETR).
